@@ -82,8 +82,9 @@ class FailureI(Interface):
 
 
 class SdvI(Interface):
-    """A symbol dependent value: known through the references it reports."""
+    """A symbol dependent value: known through the references it reports (immutable: identified by an id)."""
     target_class = SymbolDependentValue
+    by_id = True
     attrs = {'references': ListOf(Iface(lambda: ReferenceI))}
 
 
@@ -748,3 +749,204 @@ M.contract(P_DEF + ':TheInstructionEmbryo.main',
 M.contract(P_DEF + ':TheInstructionEmbryo.symbol_usages', params=dict(self=DEF_EMBRYO), inline=True,
            ensures={'reports exactly its definition': lambda self, result: len(result) == 1 and result[0] is self.symbol},
            raises_only=())
+
+
+# ------------------------------------------------------------------------------ substitution
+# "each reference evaluates to the defined value: strings by concatenation, lists by splicing in elements,
+#  ..., a list inside a string joined by single spaces"
+# Values are seen through `value_of_any_dependency(tcds)` for one arbitrary fixed tcds (the directories of the
+# test case) -- and `value_when_no_dir_dependencies()`, which is the same computation without directories.
+
+from exactly_lib.type_val_deps.types.string_ import string_sdv, string_sdv_impls, string_ddv, strings_ddvs
+from exactly_lib.type_val_deps.types.list_ import list_sdv, list_ddv
+from exactly_lib.type_val_deps.types.path.path_ddv import PathDdv
+from exactly_lib.type_val_deps.dep_variants.sdv.w_str_rend.sdv_type import DataTypeSdv
+
+P_SDVI = 'exactly_lib.type_val_deps.types.string_.string_sdv_impls'
+P_SSDV = 'exactly_lib.type_val_deps.types.string_.string_sdv'
+P_SDDV = 'exactly_lib.type_val_deps.types.string_.string_ddv'
+P_SDDVS = 'exactly_lib.type_val_deps.types.string_.strings_ddvs'
+P_LSDV = 'exactly_lib.type_val_deps.types.list_.list_sdv'
+P_LDDV = 'exactly_lib.type_val_deps.types.list_.list_ddv'
+
+
+class TcdsI(Interface):
+    by_id = True
+
+
+TCDS = Iface(TcdsI)
+
+
+class StringValueI(Interface):
+    """anything with a string value: a StringDdv, a fragment of one"""
+    methods = {'value_of_any_dependency': Method(returns=Str, pure=True),
+               'value_when_no_dir_dependencies': Method(returns=Str, pure=True)}
+
+
+class StringDdvI(StringValueI):
+    target_class = string_ddv.StringDdv
+
+
+class FragmentDdvI(StringValueI):
+    target_class = string_ddv.StringFragmentDdv
+
+
+class PathValueI(Interface):
+    """a pathlib.Path: known through its str()"""
+    methods = {'__str__': Method(returns=Str, pure=True)}
+
+
+class PathDdvI(Interface):
+    target_class = PathDdv
+    methods = {'value_of_any_dependency': Method(returns=Iface(PathValueI), pure=True),
+               'value_when_no_dir_dependencies': Method(returns=Iface(PathValueI), pure=True)}
+
+
+class ListDdvI(Interface):
+    target_class = list_ddv.ListDdv
+    attrs = {'string_elements': ListOf(Iface(StringDdvI))}
+    methods = {'value_of_any_dependency': Method(returns=ListOf(Str), pure=True),
+               'value_when_no_dir_dependencies': Method(returns=ListOf(Str), pure=True)}
+
+
+# --- joining
+
+def _space_join(state, x):
+    """(started, text) -> (True, text + [' ' if started] + x)"""
+    return (True, (state[1] + ' ' + x) if state[0] else x)
+
+
+def joined_by_single_spaces(xs):
+    return prefix_fold(_space_join, (False, ''), xs, len(xs))[1]
+
+
+def _cat_value(acc, fragment, tcds):
+    return acc + fragment.value_of_any_dependency(tcds)
+
+
+def _cat_value_no_deps(acc, fragment):
+    return acc + fragment.value_when_no_dir_dependencies()
+
+
+M.trust('str.join over a sequence of unknown length: the Python loop in pyvc/pymodels/str_model.py')
+
+# --- the fragments of a resolved string
+
+_CONST_FRAGMENT = Inst(strings_ddvs.ConstantFragmentDdv, string_constant=Str)
+
+M.contract(P_SDDVS + ':ConstantFragmentDdv.value_of_any_dependency', params=dict(self=_CONST_FRAGMENT, tcds=TCDS),
+           inline=True, ensures={'the constant': lambda self, result: result == self.string_constant}, raises_only=())
+M.contract(P_SDDVS + ':ConstantFragmentDdv.value_when_no_dir_dependencies', params=dict(self=_CONST_FRAGMENT),
+           inline=True, ensures={'the constant': lambda self, result: result == self.string_constant}, raises_only=())
+
+_STRING_FRAGMENT = Inst(strings_ddvs.StringDdvFragmentDdv, value=Iface(StringDdvI))
+_LIST_FRAGMENT = Inst(strings_ddvs.ListFragmentDdv, value=Iface(ListDdvI))
+_PATH_FRAGMENT = Inst(strings_ddvs.PathFragmentDdv, value=Iface(PathDdvI))
+
+
+def rendering(fragment, tcds):
+    """the string a symbol contributes to a string it is referenced from"""
+    v = fragment.value.value_of_any_dependency(tcds)
+    if isinstance(fragment, strings_ddvs.StringDdvFragmentDdv):
+        return v
+    if isinstance(fragment, strings_ddvs.ListFragmentDdv):
+        return joined_by_single_spaces(v)
+    return str(v)
+
+
+M.contract(P_SDDVS + ':_StringFragmentDdvFromDirDependentValue.value_of_any_dependency',
+           params=dict(self=Union(_STRING_FRAGMENT, _LIST_FRAGMENT, _PATH_FRAGMENT), tcds=TCDS), returns=Str,
+           ensures={'string: itself; list: elements joined by single spaces; path: str of the path':
+                    lambda self, tcds, result: result == rendering(self, tcds)},
+           raises_only=())
+
+M.loop(P_SDDVS + ':ListFragmentDdv._to_string', 'join#0',
+       invariant=lambda _i, _xs, acc, first:
+       iff(first, _i == 0) and (first or acc == prefix_fold(_space_join, (False, ''), _xs, _i)[1])
+       and (not first or acc == ''),
+       modifies=dict(acc=Str, first=Bool, element='local'))
+
+# --- a symbol reference inside a string
+
+
+def _sdv_resolve(interp, self, args, kwargs):
+    """SymbolDependentValue.resolve(symbols) of a data value: a StringDdv, a PathDdv or a ListDdv (environment)"""
+    k = interp.st.choose(3)
+    r = new_opaque(interp, (StringDdvI, PathDdvI, ListDdvI)[k], 'resolved')
+    interp.st.emit('resolved', self, args[0], r)
+    return r
+
+
+class DataSdvI(SdvI):
+    methods = {'resolve': Method(model=_sdv_resolve)}
+
+
+class DataContainerI(ContainerI):
+    attrs = {'sdv': Iface(DataSdvI)}
+
+
+DATA_TABLE = Inst(SymbolTable, _key_2_value=MapOf(Str, Iface(DataContainerI)))
+
+
+def _resolved(trace):
+    return [e for e in trace if e[0] == 'resolved'][0]
+
+
+M.contract(P_SDVI + ':SymbolStringFragmentSdv.resolve',
+           params=dict(self=Inst(string_sdv_impls.SymbolStringFragmentSdv, _symbol_reference=REFERENCE),
+                       symbols=DATA_TABLE),
+           requires=lambda self, symbols: self._symbol_reference.name in view(symbols),     # validated: ref_ok
+           ensures={
+               'the value of the referenced symbol, resolved against the same table': lambda self, symbols, trace:
+               len([e for e in trace if e[0] == 'resolved']) == 1 and _resolved(trace)[2] is symbols
+               and _resolved(trace)[1] is view(symbols)[self._symbol_reference.name].sdv,
+               'rendered according to its type': lambda result, trace:
+               result.value is _resolved(trace)[3] and type(result) is (
+                   strings_ddvs.StringDdvFragmentDdv if isinstance(_resolved(trace)[3], string_ddv.StringDdv) else
+                   strings_ddvs.PathFragmentDdv if isinstance(_resolved(trace)[3], PathDdv) else
+                   strings_ddvs.ListFragmentDdv),
+           }, raises_only=())
+
+M.contract(P_SDVI + ':ConstantStringFragmentSdv.resolve',
+           params=dict(self=Inst(string_sdv_impls.ConstantStringFragmentSdv, _constant=Str), symbols=Any_),
+           inline=True,
+           ensures={'the constant': lambda self, result:
+           type(result) is strings_ddvs.ConstantFragmentDdv and result.string_constant == self._constant},
+           raises_only=())
+
+
+# --- a string = its fragments, resolved one by one and concatenated in order
+
+class FragmentSdvI(Interface):
+    target_class = string_sdv.StringFragmentSdv
+    methods = {'resolve': Method(returns=Iface(FragmentDdvI), pure=True)}
+
+
+M.contract(P_SSDV + ':StringSdv.resolve',
+           params=dict(self=Inst(string_sdv.StringSdv, _fragment_sdvs=ListOf(Iface(FragmentSdvI))), symbols=Any_),
+           ensures={'one resolved fragment per fragment, in order, resolved against the given table':
+                    lambda self, symbols, result:
+                    type(result) is string_ddv.StringDdv and len(result.fragments) == len(self._fragment_sdvs)
+                    and forall_range(0, len(self._fragment_sdvs),
+                                     lambda j: result.fragments[j] is self._fragment_sdvs[j].resolve(symbols))},
+           raises_only=())
+
+_STRING_DDV = Inst(string_ddv.StringDdv, _fragments=ListOf(Iface(FragmentDdvI)))
+
+M.contract(P_SDDV + ':StringDdv.value_of_any_dependency', params=dict(self=_STRING_DDV, tcds=TCDS), returns=Str,
+           ensures={'the concatenation of the values of the fragments, in order': lambda self, tcds, result:
+           result == prefix_fold(_cat_value, '', self._fragments, len(self._fragments), tcds)},
+           raises_only=())
+M.loop(P_SDDV + ':StringDdv.value_of_any_dependency', 'join#0',
+       invariant=lambda _i, acc, first, self, tcds:
+       iff(first, _i == 0) and acc == prefix_fold(_cat_value, '', self._fragments, _i, tcds),
+       modifies=dict(acc=Str, first=Bool, element='local'))
+
+M.contract(P_SDDV + ':StringDdv.value_when_no_dir_dependencies', params=dict(self=_STRING_DDV), returns=Str,
+           ensures={'the concatenation of the values of the fragments, in order': lambda self, result:
+           result == prefix_fold(_cat_value_no_deps, '', self._fragments, len(self._fragments))},
+           raises_only=())
+M.loop(P_SDDV + ':StringDdv.value_when_no_dir_dependencies', 'join#0',
+       invariant=lambda _i, acc, first, self:
+       iff(first, _i == 0) and acc == prefix_fold(_cat_value_no_deps, '', self._fragments, _i),
+       modifies=dict(acc=Str, first=Bool, element='local'))
